@@ -288,8 +288,21 @@ func replayStored(repo, verif, prop, path string) int {
 		fmt.Println("bad replay file", err)
 		return 2
 	}
-	_, dirFiles := findHarnesses(verif, r.Property)
+	hs, dirFiles := findHarnesses(verif, r.Property)
 	collectNativeStubs(dirFiles)
+	// the packages are loaded as in a checking run: the schedule / stub instrumentation of the
+	// native build is generated from the loaded syntax trees
+	dirs := map[string]bool{r.Dir: true}
+	for _, x := range hs {
+		dirs[x.Dir] = true
+	}
+	for d := range dirs {
+		loadedHarnessDirs[d] = true
+	}
+	if _, lerr := load(repo, verif, dirFiles, dirs); lerr != nil {
+		fmt.Printf("INCONCLUSIVE property=%s reason=harness does not compile against the current tree: %v\n", r.Property, lerr)
+		return 2
+	}
 	h := harnessInfo{Name: r.Harness, Dir: r.Dir}
 	v := &Violation{Label: r.Label, Kind: r.Kind}
 	ok, out := replayNative(repo, verif, dirFiles, h, path, v)
